@@ -123,7 +123,27 @@ func init() {
 		it.reach = append(it.reach, strArg(it, args[0]))
 		return nil, stOK
 	})
+	// vObserve(tag, v) / vObserveBytes(tag, b): values recorded for the translator self-test: on sample
+	// paths the engine evaluates them under the path's model and the native build must produce the same
 	reg("harness.vObserve", func(it *Interp, g *G, fr *Frame, args []Value, site ssa.Instruction) (Value, stepResult) {
+		t := args[1].(*Term)
+		if t.W == 0 {
+			t = it.ts.Ite(t, it.ts.Const(64, 1), it.ts.Const(64, 0))
+		} else if t.W < 64 {
+			t = it.ts.Zext(t, 64)
+		}
+		it.obs = append(it.obs, obsRec{tag: strArg(it, args[0]), terms: []*Term{t}})
+		return nil, stOK
+	})
+	reg("harness.vObserveBytes", func(it *Interp, g *G, fr *Frame, args []Value, site ssa.Instruction) (Value, stepResult) {
+		sl, _ := args[1].(*Slice)
+		rec := obsRec{tag: strArg(it, args[0]), terms: []*Term{}}
+		if !isNilValue(sl) {
+			for i := 0; i < sl.len; i++ {
+				rec.terms = append(rec.terms, it.ts.Zext(sl.obj.get(sl.off+i).(*Term), 64))
+			}
+		}
+		it.obs = append(it.obs, rec)
 		return nil, stOK
 	})
 	reg("harness.vLog", func(it *Interp, g *G, fr *Frame, args []Value, site ssa.Instruction) (Value, stepResult) {
